@@ -303,6 +303,59 @@ func zzH_C11_update(t *zzT) {
 	t.Reach("end")
 }
 
+// C11.c (histories of updates): U successive single-leaf updates — the new value may be a value the
+// leaf (or another leaf) held earlier (A -> B -> A), only the CURRENT list stays pairwise distinct —
+// each followed by the root check; afterwards every leaf is still provable against the root, a
+// further update still lands on the reference root, and the tree reloaded from its database agrees.
+//
+//zz:opt loop=200 require=end
+//zz:quick N=3 U=2 W=1
+//zz:thorough N=5 U=3 W=1 budget=1800s
+func zzH_C11_update_sequence(t *zzT) {
+	n := t.Range("n", 1, t.Param("N", 3))
+	vals := zzLeaves(t, n)
+	tree, db := zzTree(t, vals)
+	cur := make([][]byte, n)
+	copy(cur, vals)
+	step := func(u int) bool {
+		p := t.Choice(t.Name("upd.pos", u), n)
+		nv := t.Bytes(t.Name("upd.val", u), t.Param("W", 1))
+		for j := range cur {
+			if j != p {
+				t.Assume(!bytes.Equal(nv, cur[j]))
+			}
+		}
+		proof, err := tree.GenerateProof([][]byte{zzRefLeaf(cur[p])})
+		t.Assert(err == nil, "GenerateProof succeeds for a present leaf after earlier updates")
+		if err != nil {
+			return false
+		}
+		err = tree.Update(proof.Idxs, [][]byte{nv})
+		cur[p] = nv
+		t.Assert(err == nil && bytes.Equal(tree.Root(), zzRefRoot(cur)), "root after every update of a history equals the root of the modified list")
+		return err == nil
+	}
+	U := t.Param("U", 2)
+	for u := 0; u < U; u++ {
+		if !step(u) {
+			return
+		}
+	}
+	q := t.Choice("q", n)
+	query := [][]byte{zzRefLeaf(cur[q])}
+	proof, err := tree.GenerateProof(query)
+	t.Assert(err == nil && VerifyProof(query, proof, tree.Root()), "after a history of updates every leaf is provable against the root")
+	if n > 1 {
+		re, rerr := NewRegularMerkleTreeWithPastData(db)
+		t.Assert(rerr == nil && bytes.Equal(re.Root(), tree.Root()), "a tree reloaded after a history of updates has the same root")
+		if rerr == nil {
+			rp, e2 := re.GenerateProof(query)
+			t.Assert(e2 == nil && VerifyProof(query, rp, tree.Root()), "a tree reloaded after a history of updates proves every leaf")
+		}
+	}
+	t.Reach("end")
+}
+
 // C11.c: for every split position k, the append path of the first k leaves together with the right
 // witness generated by the full tree reconstructs the root.
 //
